@@ -222,7 +222,9 @@ PROPS = {
                 ["pool_connections_only", "tables_run"]] + [("GcpVerif.Proofs.PoolValid", "GcpVerif.Pool." + n) for n in
                 ["pool_never_panics", "slots_exist", "valid_run"]]),
     "C06": pool_prop_plus([], [("GcpVerif.Proofs.Sync", "GcpVerif.Sync.c06_no_self_acquire"), ("GcpVerif.Proofs.Sync", "GcpVerif.Sync.c06_order_acyclic")], ["wall-clock bounds are observed by the harness watchdog (3 s per call), not proved"]),
-    "C07": pool_prop(["disabled_never_refreshes", "response_resets", "isResponse_iff", "stale_call_ignored", "refresh_trigger", "window_exponential", "window_monotone_or_saturated", "refresh_once"], ["unresponsive_detection_ms * 2^k < 2^32 (the Go code computes the window in uint32; known finding K2)"]),
+    "C07": dict(pool_prop(["disabled_never_refreshes", "response_resets", "isResponse_iff", "stale_call_ignored", "refresh_trigger", "window_exponential", "window_monotone_or_saturated", "refresh_once"], ["window_exponential: k < 63 and unresponsive_detection_ms * 2^k <= MaxInt64 ms; beyond that the window saturates at MaxInt64 ns (window_monotone_or_saturated; K2 was the uint32 wrap, fixed in 6463af4)"]), theorems=pool_thms(["disabled_never_refreshes", "response_resets", "isResponse_iff", "stale_call_ignored", "refresh_trigger", "window_exponential", "window_monotone_or_saturated", "refresh_once"]) +
+                [("GcpVerif.Proofs.PoolRefresh", "GcpVerif.Pool." + n) for n in ["one_replacement_per_slot", "refr_run", "refresh_in_progress_noop", "swap_takes_over"]] +
+                [("GcpVerif.Proofs.PoolKeys", "GcpVerif.Pool.stable_swap")]),
     "C08": dict(pool_prop([]), theorems=pool_thms(["fallback_sticky", "fallback_new", "bound_ready_home", "lookup_preserves_binding"]) +
                 [("GcpVerif.Proofs.PoolKeys", "GcpVerif.Pool." + n) for n in ["fallback_key_in_pool", "keyed_run"]]),
     "C09": pool_prop(["rr_next_slot", "rrSlot_succ"], ["fairness: the cursor does not pass 2^32-1 inside the window unless n divides 2^32 (known finding K1); no Shutdown report for a pool member"]),
